@@ -30,6 +30,9 @@ FILES = {
               "2.0 1.5 -0.5 1\n\nEdges\n2\n1 2 1\n2 3 1\n\n",
     "e.mesh": "MeshVersionFormatted 1\nDimension 3\nVertices\n5\n1.0 0.5 -1.0 1\n2.0 0.5 -1.0 1\n1.0 1.5 -1.0 1\n"
               "2.0 1.5 -0.5 1\n1.5 1.0 1.0 1\n\nEdges\n3\n3 4 1\n4 5 1\n1 2 1\n\nTriangles\n2\n1 2 3 1\n2 4 3 1\n\n",
+    "h.mesh": "MeshVersionFormatted 1\nDimension 3\nVertices\n12\n1 1 1 1\n2 1 1 1\n2 2 1 1\n1 2 1 1\n1 1 2 1\n2 1 2 1\n"
+              "2 2 2 1\n1 2 2 1\n1 1 3.5 1\n2 1 3.5 1\n2 2 3.5 1\n1 2 3.5 1\n\nHexahedra\n2\n1 2 3 4 5 6 7 8 1\n"
+              "5 6 7 8 9 10 11 12 1\n\n",
     "p.xyz": "1.0 0.5 -1.0\n2.0 0.5 -1.0\n1.0 1.5 -1.0\n2.0 1.5 -0.5\n",
     "v.tet": "4 vertices\n1 tets\n1.0 0.5 -1.0\n2.0 0.5 -1.0\n1.0 1.5 -1.0\n2.0 1.5 -0.5\n4 0 1 2 3\n",
     "s.ply": "ply\nformat ascii 1.0\nelement vertex 4\nproperty float x\nproperty float y\nproperty float z\n"
@@ -250,6 +253,41 @@ def p_hexa_volume(ctx):
     return _one(M.procedural.hexahedron(*P, volume=True), "hexahedron", P)
 
 
+def p_hexa4_volume(ctx):
+    import mouette as M
+    P = _vecs([[1, 1, 1], [2, 1, 1], [1, 2, 1], [1, 1, 2]])
+    return _one(M.procedural.hexahedron_4pts(*P, volume=True), "hexahedron_4pts", P)
+
+
+CUBE2 = CUBE + [[1, 1, 3.5], [2, 1, 3.5], [2, 2, 3.5], [1, 2, 3.5]]
+HEXES = [[0, 1, 2, 3, 4, 5, 6, 7], [4, 5, 6, 7, 8, 9, 10, 11]]
+
+
+def fa_hex(ctx):
+    """two hexahedra that share a face, from arrays"""
+    import mouette as M
+    V = _arr(CUBE2)
+    return _one(M.mesh.from_arrays(V, C=_arr(HEXES, int)), "from_arrays", [V])
+
+
+def raw_hex_tet(ctx):
+    """one hexahedron and one tetrahedron standing on its top face in ONE volume mesh (cells of 8 and of 4 corners)"""
+    import mouette as M
+    raw = M.mesh.RawMeshData()
+    raw.vertices += _vecs(CUBE + [[1.5, 1.5, 3.0]])
+    raw.cells += [tuple(HEXES[0]), (4, 5, 7, 8)]
+    return _one(M.mesh.VolumeMesh(raw), "RawMeshData(Vec)")
+
+
+def p_merge_hex_tet(ctx):
+    """merge of a tetrahedral volume and a hexahedral volume (the inputs stay live)"""
+    import mouette as M
+    t = M.procedural.tetrahedron(*_vecs(PTS[:4]), volume=True)
+    h = M.procedural.hexahedron(*_vecs(CUBE), volume=True)
+    mg = M.mesh.merge([t, h])
+    return Built([(t, "tetrahedron"), (h, "hexahedron"), (mg, "merge")], [(0, 2, "merge"), (1, 2, "merge")])
+
+
 def p_cube(ctx):
     import mouette as M
     return _one(M.procedural.axis_aligned_cube(), "axis_aligned_cube")
@@ -449,24 +487,27 @@ PRODUCERS = {
     "load.obj": _loader("s.obj"), "load.obj.polyline": _loader("l.obj"), "load.off": _loader("s.off"),
     "load.mesh.surface": _loader("s.mesh"), "load.mesh.volume": _loader("v.mesh"), "load.mesh.polyline": _loader("l.mesh"),
     "load.mesh.edges": _loader("e.mesh"),
+    "load.mesh.hex": _loader("h.mesh"),
     "load.xyz": _loader("p.xyz"), "load.tet": _loader("v.tet"), "load.ply": _loader("s.ply"),
     "load.stl_ascii": _loader("s.stl"), "load.geogram_ascii": _loader("s.geogram_ascii"),
     "from_arrays.pointcloud": fa_pointcloud, "from_arrays.polyline": fa_polyline, "from_arrays.surface": fa_surface,
-    "from_arrays.volume": fa_volume, "from_arrays.2col": fa_2col, "from_arrays.int": fa_int,
+    "from_arrays.volume": fa_volume, "from_arrays.hex": fa_hex, "from_arrays.2col": fa_2col, "from_arrays.int": fa_int,
     "raw.lists": raw_lists, "raw.volume": raw_volume, "raw.whisker": raw_whisker, "raw.volume.extras": raw_volume_extras,
+    "raw.hex_tet": raw_hex_tet,
     "reorder_vertices": p_reorder,
     "triangle": p_triangle, "quad": p_quad, "quad.tri": p_quad_tri, "unit_grid": p_grid, "unit_grid.tri_uv": p_grid_tri_uv,
     "unit_triangle": p_unit_triangle, "ring.closed": p_ring_closed, "ring.open": p_ring_open,
     "ring.open.cover2": p_ring_open_cover2, "flat_ring": p_flat_ring,
     "tetrahedron.surface": p_tet_surface, "tetrahedron.volume": p_tet_volume, "hexahedron.colored": p_hexa_colored,
     "hexahedron.volume": p_hexa_volume, "axis_aligned_cube": p_cube, "hexahedron_4pts": p_hexa4,
+    "hexahedron_4pts.volume": p_hexa4_volume,
     "octahedron": p_octahedron, "icosahedron": p_icosahedron, "dodecahedron": p_dodecahedron,
     "cylinder.caps": p_cylinder_caps, "cylinder.open": p_cylinder_open, "torus": p_torus, "sphere_uv": p_sphere_uv,
     "icosphere0": p_icosphere0, "icosphere1": p_icosphere1, "sphere_fibonacci.points": p_fibo_points,
     "sphere_fibonacci.surface": p_fibo_surface, "chain_of_vertices": p_chain, "chain_of_vertices.loop": p_chain_loop,
     "vector_field": p_vector_field, "spherify_vertices": p_spherify, "cylindrify_edges": p_cylindrify,
     "dual_mesh.barycenter": p_dual_bary, "dual_mesh.circumcenter": p_dual_circ,
-    "merge.mixed": p_merge_mixed,
+    "merge.mixed": p_merge_mixed, "merge.hex_tet": p_merge_hex_tet,
     "subdiv.triangulate": _surf_subdiv("SurfaceSubdivision.triangulate", _grid22, lambda s: s.triangulate()),
     "subdiv.fan": _surf_subdiv("SurfaceSubdivision.split_face_as_fan", _grid22, lambda s: s.split_face_as_fan(0)),
     "subdiv.loop": _surf_subdiv("SurfaceSubdivision.loop_subdivision", _twotris, lambda s: s.loop_subdivision(1)),
